@@ -133,7 +133,7 @@ class Ctx(object):
         self.seed = seed
         self.total = Part()
         self.started = time.time()
-        self.budget = float(os.environ.get("VERIF_BUDGET_S", "0")) or (240.0 if tier == "quick" else 3000.0)
+        self.budget = float(os.environ.get("VERIF_BUDGET_S", "0")) or (900.0 if tier == "quick" else 6000.0)
         self.cap_hit = False
         self.bound = {}
         self.rule = ""
